@@ -13,8 +13,10 @@ From Coq Require Import List Ascii ZArith Bool.
 From CGV Require Import Base.PyBase Base.PyVal Base.NxGraph Gen.WriterGen Dialect.DialectImpl Write.WriteImpl Write.FragDefs
      Write.FragCheck Write.FormatBondingSpec.
 From CGV Require Import Frag.NDict Frag.StripImpl Frag.FragText Write.FormatStripRound.
-From CGV Require Import Write.WriteProofs Write.PathRound Write.FragRead Write.CoarseChain Write.CoarseFrags Write.CoarseGraph Write.CoarseTrack Write.CoarseGraphX Write.CoarseFragsX Reader.Grammar Reader.ReaderImpl.
+From CGV Require Import Write.WriteProofs Write.PathRound Write.FragRead Write.CoarseChain Write.CoarseFrags Write.CoarseGraph Write.CoarseTrack Write.CoarseGraphX Write.CoarseFragsX Write.AtomTree Reader.Grammar Reader.ReaderImpl.
 From CGV Require Import Write.WriteDefs Write.TreeDefs Write.TreeRound Write.RingRound Write.FullMachine Write.FullRound Write.FullDomain Reader.Lin.
+From Coq Require Import Permutation.
+From CGV Require Import Frag.SmilesParse Frag.SmilesSpec Frag.Template Write.TreeDefs Write.DfsProofs Write.ConnFacts.
 Import ListNotations.
 Open Scope Z_scope.
 
@@ -227,6 +229,91 @@ Proof. exact coarse_fragments_any_example. Qed.
 Example C08_ex_gtxt : to_string ex_gtxt = "{#X=[#A][$a]#1[#B]=([#D])=([#PEO]=[>].[!x])[#C]1,#Y=[#A][$a]=1=[#B]([#PEO]=[>].[!x])[#C]1}"%string.
 Proof. reflexivity. Qed.
 
+(** ALL-ATOM fragments, ring-free, organic-subset atoms, unbounded (Write/AtomTree.v).  ASSUMED, exactly:
+    the fragment graph g is a well-formed networkx graph (distinct keys, symmetric adjacency, no self loops); every node
+    satisfies [atom_ok dh el D]: `element` is the string el k, one of B C N O P S F Cl Br I ([upper_organic]); `charge`
+    absent or 0; `hcount` absent or an int; `aromatic` absent or False; no rs_isomer / isotope / class; the transcript
+    has_default_h_count says True for it (dh k: then pysmiles' format_atom writes the bare element); `bonding` is absent
+    when D k = [] and else the list of D k's descriptors as stored ("$a1": four kinds, alphanumeric label, order 0..4);
+    every edge carries an integer `order` 0..4 ([orders_ok]); the ring-edge transcript is [] (a fragment whose DFS leaves
+    no ring edge: ring-free; rings are NOT covered).  THEN, for the DFS tree T the writer uses (T is a rose tree on the
+    nodes reachable from min(g), its edges are edges of g): write_graph(smiles_format=True, name_attr='atomname') returns
+    [tree_text]: the rendering of the writer's visit list (branch edges written "(" symbol atom ... ")"), in the order
+    [worder T]; the strip model (strip component's main lemma, through CoarseGraph.strip_items) splits it into the SMILES
+    text [tree_clean] and the dict {i: descriptors of the i-th written atom} ([ddl], closed form [C08_atom_tree_descriptor_dict]),
+    no E/Z marks, no annotations; Frag's model of pysmiles (tokenizer + base_smiles_parser + parse_atom + bond orders:
+    SmilesProofs.render_parse, SmilesSpec.graph_of) reads [tree_clean] as [tree_sgraph]: atom i = the i-th written atom
+    with element / charge 0 / aromatic False, one bond per tree edge between the positions of its ends with the order of
+    its symbol ('.' 0, none 1, '=' 2, '#' 3, '$' 4); and the model of fragment_iter(all_atom=True) up to pysmiles' hydrogen
+    completion ([Template.fragment_template]) returns [assemble F tree_sgraph dict]: fragname F, fragid 0, weight 1 and
+    `bonding` on every atom.  NOT covered here: hcount after fill_valence (Frag/TemplateFinal.v), atomname, the
+    explicit-hydrogen round of read_fragment_smiles. *)
+Theorem C08_atom_tree_roundtrip : forall dh el D g,
+  (forall k, str_in (el k) upper_organic = true) -> (forall k, forallb d_ok (D k) = true) ->
+  (forall n, In n g -> atom_ok dh el D n) -> orders_ok g ->
+  forall fo F start, graph_wf g = true -> min_node g = Ok start ->
+  exists T, rkey T = start /\ dfs_edges g start = Ok (redges T) /\ NoDup (rkeys T)
+    /\ (forall x, reachable g start x -> In x (rkeys T))
+    /\ (forall e, In e (redges T) -> In (snd e) (neighbors g (fst e)))
+    /\ let eo := eo_of g in
+       let dd := ddl 0 (map D (worder T)) [] in
+       write_graph_full_by (S "atomname") true dh g [] = Ok {| r_text := tree_text el D eo T; r_visit := worder T; r_mtrace := [] |}
+       /\ strip_bonding_descriptors fo (tree_text el D eo T) = Ok (tree_clean el eo T, dd, [], [])
+       /\ smiles_parse (tree_clean el eo T) = Ok (tree_sgraph el eo T)
+       /\ fragment_template fo F (tree_text el D eo T) = Ok (assemble F (tree_sgraph el eo T) dd []).
+Proof. exact atom_tree_graph. Qed.
+(** the same at the level of the writer's loop: ANY rose tree with distinct keys as DFS transcript, any formatting
+    functions that return the element followed by the descriptors / the symbol of the edge *)
+Theorem C08_atom_tree_transcript : forall fo F el D eo T n fmt sym rsym,
+  NoDup (rkeys T) -> (rsize T <= n)%nat ->
+  (forall k, str_in (el k) upper_organic = true) -> (forall k, forallb d_ok (D k) = true) ->
+  (forall k, In k (rkeys T) -> fmt k = Ok (el k ++ fbt (D k))) ->
+  (forall e, In e (redges T) -> sym (fst e) (snd e) = Ok (optb (eo (fst e) (snd e)))) ->
+  let dd := ddl 0 (map D (worder T)) [] in
+  run_writer n (mk_env true fmt sym rsym (redges T) []) (rkey T)
+    = Ok {| r_text := tree_text el D eo T; r_visit := worder T; r_mtrace := [] |}
+  /\ strip_bonding_descriptors fo (tree_text el D eo T) = Ok (tree_clean el eo T, dd, [], [])
+  /\ smiles_parse (tree_clean el eo T) = Ok (tree_sgraph el eo T)
+  /\ fragment_template fo F (tree_text el D eo T) = Ok (assemble F (tree_sgraph el eo T) dd []).
+Proof. exact atom_tree_transcript. Qed.
+(** what was read back IS the fragment, renumbered by k |-> position of k in the order of writing: the positions are a
+    bijection between the tree's nodes and 0..n-1 (no duplicates, a permutation of the nodes); atom [pos k] of the
+    template carries k's element (charge 0, not aromatic), the fragment's name and exactly k's descriptors as `bonding`
+    (none when k has none); the template's bonds are exactly the tree edges, ends mapped by [pos], with their orders *)
+Theorem C08_atom_tree_template_iso : forall F el D eo T, NoDup (rkeys T) ->
+  let W := worder T in
+  let Tm := assemble F (tree_sgraph el eo T) (ddl 0 (map D W) []) [] in
+  NoDup W /\ Permutation W (rkeys T) /\ length (t_nodes Tm) = length W
+  /\ (forall k, In k (rkeys T) ->
+        nth_error W (pos W k) = Some k
+        /\ nth_error (t_nodes Tm) (pos W k)
+           = Some (template_node F (atom_attrs (el k)) (match D k with [] => None | Ds => Some (map d_stored Ds) end) None))
+  /\ Permutation (t_edges Tm) (map (fun e => (pos W (fst e), pos W (snd e), ordv (eo (fst e) (snd e)))) (redges T)).
+Proof. exact atom_tree_template_iso. Qed.
+(** the descriptor dict in closed form: one entry per atom that has descriptors, keyed by its position *)
+Theorem C08_atom_tree_descriptor_dict : forall Dl, ddl 0 Dl [] = dentries 0 Dl.
+Proof. exact (fun Dl => ddl_entries Dl 0%nat [] (fun kv (H : In kv []) => match H with end)). Qed.
+(** non-vacuity: a fragment with nested branches, a double bond on a branch edge, a triple bond on a chain edge, six
+    elements incl. the two-letter Cl, descriptors of the four kinds with orders 0, 1, 2: the hypotheses hold
+    ([atom_ok_b] decides [atom_ok]), the text, the SMILES text, and what the model of fragment_iter reads back *)
+Example C08_atom_tree_nonvacuous :
+  let fo : float_oracle := fun _ => None in
+  let dh := fun _ : Z => true in
+  graph_wf ex_ag = true /\ min_node ex_ag = Ok 0 /\ ring_contract ex_ag (dfs_tree ex_ag) [] = true
+  /\ forallb (atom_ok_b dh ex_ael ex_aD) ex_ag = true
+  /\ dfs_edges ex_ag 0 = Ok (redges ex_aT)
+  /\ write_graph_by (S "atomname") true dh ex_ag [] = Ok (S "C[$a](N(CF)C#Cl=[<x].[!])=O[>]")
+  /\ tree_text ex_ael ex_aD (eo_of ex_ag) ex_aT = S "C[$a](N(CF)C#Cl=[<x].[!])=O[>]"
+  /\ tree_clean ex_ael (eo_of ex_ag) ex_aT = S "C(N(CF)C#Cl)=O"
+  /\ match fragment_template fo (S "X") (S "C[$a](N(CF)C#Cl=[<x].[!])=O[>]") with
+     | Ok Tm => map (fun a => (aget (S "element") a, aget (S "bonding") a)) (t_nodes Tm)
+                = [(Some (VStr (S "C")), Some (VList [VStr (S "$a1")])); (Some (VStr (S "N")), None); (Some (VStr (S "C")), None); (Some (VStr (S "F")), None);
+                   (Some (VStr (S "C")), None); (Some (VStr (S "Cl")), Some (VList [VStr (S "<x2"); VStr (S "!0")])); (Some (VStr (S "O")), Some (VList [VStr (S ">1")]))]
+                /\ t_edges Tm = [(0, 1, VInt 1); (1, 2, VInt 1); (2, 3, VInt 1); (1, 4, VInt 1); (4, 5, VInt 3); (0, 6, VInt 2)]%nat
+     | Err _ => False
+     end.
+Proof. exact atom_tree_example. Qed.
+
 Theorem C08_descriptors_on_atom0 : forall L : list dspec, L <> [] ->
   fold_left (fun d x => nd_append 0 (d_stored x) d) L [] = [(0%nat, map d_stored L)].
 Proof. exact descs_on_atom0. Qed.
@@ -251,4 +338,8 @@ Print Assumptions C08_split_coarse_fragments.
 Print Assumptions C08_coarse_fragments_roundtrip.
 Print Assumptions C08_coarse_graph_roundtrip.
 Print Assumptions C08_coarse_fragments_roundtrip_any.
+Print Assumptions C08_atom_tree_roundtrip.
+Print Assumptions C08_atom_tree_transcript.
+Print Assumptions C08_atom_tree_template_iso.
+Print Assumptions C08_atom_tree_descriptor_dict.
 Print Assumptions C08_descriptors_on_atom0.
